@@ -138,7 +138,7 @@ def classify(code, trail, opts):
         # a union whose producing arm shows the listed strict-then-lax mechanism, every other arm failing on type only
         parts = code[len("no-arg:"):].split("+")
         stl = [p for p in parts if p.startswith("strict-then-lax:")]
-        if len(stl) == 1 and all(p.startswith("not-instance:") for p in parts if p not in stl):
+        if len(stl) == 1 and all(p.startswith("not-instance:") or p == "literal" for p in parts if p not in stl):
             return "C01/" + stl[0]
     if "and" in trail and opts.get("collect_errors"):
         return "C01/and-combinator+collect_errors/" + code.split(":")[0]
